@@ -5,8 +5,16 @@ values come from the library (oracle-fed tables on each line).
   run bl=<b> P=<y0,y1,…> FB=<x:x':z;…> wa=<cache records,…> wb=<cache records,…>
       A0=<x0,x1,…|-> cpA0=<n> B0=<x:x',…|-> cpB0=<n>
   → cpA=<n> cpB=<n> plotted=<0|1> B=<x:x',…>     (0:0 = empty entry)
+
+Byte level (`Model/PlotFile.lean`): the data regions of the two files, byte for byte, with the cache BYTE
+length of every window as the code used it (no cycling: one entry per window)
+  bytes bl=<b> P=<…> FB=<…> ca=<cache bytes,…|-> cb=<cache bytes,…|-> A0=<hex|-> cpA0=<records> B0=<hex> cpB0=<half-indices> end=<run|image>
+  → cpA=<records> cpB=<half-indices> A=<hex|-> B=<hex>        (A=- : map A was complete before and is not rewritten)
+  header code=<hex> ver=<n> pk=<hex> pkhash=<hex> bl=<n> typ=<n> cp=<n>       → the first 115 bytes `createMapFile`/`UpdateCheckpoint` leave
+  decode code=<hex> ver=<n> ta=<n> tb=<n> hdr=<hex, 115 bytes> parses=<0|1> hash=<hex|->   → ok bl= typ= cp= | err <kind>
 -/
 import MassVerif.Model.Plot
+import MassVerif.Model.PlotFile
 import MassVerif.Driver.Util
 
 namespace MassVerif.Driver.Plot
@@ -71,10 +79,93 @@ def runLine (toks : List String) : Option String := do
   let showB := ",".intercalate (bArr.toList.map (fun e => match e with | some (x, x') => s!"{x}:{x'}" | none => "0:0"))
   pure s!"cpA={cpA} cpB={cpB / 2} plotted={if cpB ≥ n then 1 else 0} B={showB}"
 
+open MassVerif.PlotFile in
+/-- materialise a byte function on `[0, n)` -/
+def ofArr (arr : Array Nat) : Bytes := fun i => arr[i]?.getD 0
+
+open MassVerif.PlotFile in
+/-- materialise a byte function on `[0, n)` (the array is built once, by the caller of the returned function) -/
+def freezeArr (f : Bytes) (n : Nat) : Array Nat := (Array.range n).map f
+
+open MassVerif.PlotFile in
+def bytesOfList (l : List Nat) : Bytes := ofArr l.toArray
+
+open MassVerif.PlotFile in
+def bytesLine (toks : List String) : Option String := do
+  let bl ← (← field toks "bl").toNat?
+  let pv ← nats (← field toks "P")
+  let fb ← triples (← field toks "FB")
+  let ca ← nats (← field toks "ca")
+  let cb ← nats (← field toks "cb")
+  let a0tok ← field toks "A0"
+  let a0 ← parseBytes a0tok
+  let cpA0 ← (← field toks "cpA0").toNat?
+  let b0 ← parseBytes (← field toks "B0")
+  let cpB0 ← (← field toks "cpB0").toNat?
+  let parr := pv.toArray
+  let p : Params := { bl := bl, P := fun x => parr[x]?.getD 0,
+                      FB := fun x x' => ((fb.find? (fun t => t.1 == x && t.2.1 == x')).map (·.2.2)).getD (2 ^ bl + 7) }
+  let n := p.N
+  let L := recordSize bl
+  let hasA := a0tok ≠ "-"
+  -- `OpenDB` does not load map A of a plotted space and `Plot()` then returns at once: nothing runs
+  let plotted0 := decide (4 * cpB0 ≥ 2 * n)
+  let ca := if plotted0 then [] else ca
+  -- pass A: one `runBytes` step per window, frozen after each
+  let wsA := writesA p
+  let stA := ca.foldl (fun (st : FileState) clen =>
+      let r := runBytes wsA L n (winA L) [clen] st
+      let arr := freezeArr r.data (n * L + 8 * L)
+      { data := ofArr arr, cp := r.cp }) { data := bytesOfList a0, cp := cpA0 }
+  let stA := if hasA then stA else { data := bytesOfList a0, cp := n }
+  -- pass B reads table A from the bytes of file A
+  let aT := tableOfList (freeze (absRec stA.data L) n)
+  let wsB := recWritesB (writesB p aT)
+  let stB := if stA.cp ≥ n then cb.foldl (fun (st : FileState) clen =>
+      let r := runBytes wsB L (2 * n) (winB L) [clen] st
+      let arr := freezeArr r.data (2 * n * L + 8 * L)
+      { data := ofArr arr, cp := r.cp }) { data := bytesOfList b0, cp := 4 * cpB0 }
+    else { data := bytesOfList b0, cp := 4 * cpB0 }
+  -- a plot that completes removes map A
+  let midRun := (field toks "end") = some "image"      -- an image taken while `executePlot` was still running
+  let showA := if !hasA then "-" else if !plotted0 && stB.cp ≥ 2 * n && !midRun then "removed"
+               else natsToHex ((List.range (n * L)).map stA.data)
+  pure s!"cpA={stA.cp} cpB={stB.cp / 4} A={showA} B={natsToHex ((List.range (2 * n * L)).map stB.data)}"
+
+open MassVerif.PlotFile in
+def headerLine (toks : List String) : Option String := do
+  let code ← parseBytes (← field toks "code")
+  let ver ← (← field toks "ver").toNat?
+  let pk ← parseBytes (← field toks "pk")
+  let pkhash ← parseBytes (← field toks "pkhash")
+  let bl ← (← field toks "bl").toNat?
+  let typ ← (← field toks "typ").toNat?
+  let cp ← (← field toks "cp").toNat?
+  let f := encodeHeader code ver { bl := bl, typ := typ, checkpoint := cp, pkHash := pkhash, pk := pk }
+  pure (natsToHex ((List.range posAlign).map f))
+
+open MassVerif.PlotFile in
+def decodeLine (toks : List String) : Option String := do
+  let code ← parseBytes (← field toks "code")
+  let ver ← (← field toks "ver").toNat?
+  let ta ← (← field toks "ta").toNat?
+  let tb ← (← field toks "tb").toNat?
+  let hdr ← parseBytes (← field toks "hdr")
+  let parses := (← field toks "parses") = "1"
+  let hash ← parseBytes (← field toks "hash")
+  match decodeHeader code ver ta tb (fun _ => parses) (fun _ => hash) (bytesOfList hdr) with
+  | .ok h => pure s!"ok bl={h.bl} typ={h.typ} cp={h.checkpoint} pk={natsToHex h.pk}"
+  | .error e => pure (match e with
+      | .fileCode => "err fileCode" | .version => "err version" | .pubKey => "err pubKey"
+      | .pubKeyHash => "err pubKeyHash" | .mapType => "err mapType")
+
 def step (s : Unit) (toks : List String) : Unit × String :=
   match toks with
   | ["reset"] => (s, "ok")
   | "run" :: rest => (s, (runLine rest).getD "bad-op")
+  | "bytes" :: rest => (s, (bytesLine rest).getD "bad-op")
+  | "header" :: rest => (s, (headerLine rest).getD "bad-op")
+  | "decode" :: rest => (s, (decodeLine rest).getD "bad-op")
   | _ => (s, "bad-op")
 
 end MassVerif.Driver.Plot
